@@ -11,6 +11,12 @@ CLAIMED = {
  "C05": ("proof", "A1 decision-table extraction over MIR + table composition",
          "Every row of the extracted Message->Frame table (all variants x 13 states x 6 operations) is pushed through the extracted Frame->Message table for every data-length class; the result must be the original message term; wire keys are pairwise distinct.",
          TB + "Claimed modulo C01 for the frame<->bytes leg.", "DESIGN.md 4 C05"),
+ "C06": ("proof", "A2 guard-ordering rules + A7 canonical forms + A3 bit-mask shapes + A5 who-writes + A4 panic inventory on the Page accessors",
+         "Decides the structural clauses: every returning path of get_pixel/set_pixel admits exactly x < width and y < height (orderings of the compared pairs) and every other path ends in the bounds panic before any write; the addressed byte is 4 + x*ceil(h/8) + floor(y/8) and the mask 1 << (y % 8) in canonical form; get reads (b & mask) == mask, set performs exactly one store b|mask / b&!mask; set_all_pixels fills exactly [4, data_bytes) with 0xFF/0x00; no other code takes &mut to Page.bytes or assigns width/height or constructs a Page; in-bounds calls reach no undischarged panic site. Non-interference between pixels is lemma L3 (code-independent).",
+         TB + "Lemma L3; Page invariant.", "DESIGN.md 4 C06"),
+ "C07": ("proof", "A3 byte-sequence extraction + A7 canonical-form comparison + A2 accept-iff-length rule",
+         "Page::new's byte sequence is extracted symbolically ([id,0x10,0,0] ++ zero fill to data_bytes ++ 0xFF fill to total_bytes) and the size/index/bit formulas are compared in canonical polynomial form with the specification; Page::from_bytes has exactly one test (len == total_bytes) and stores the given bytes unmodified; as_bytes is a shared borrow of them; equality is the derived one. Distinct pixels never sharing a bit is lemma L3.",
+         TB + "Lemma L3.", "DESIGN.md 4 C07"),
  "C09": ("proof", "A8 automaton extraction + A3 term-shape rules on the transfer routine",
          "On the extracted automata of configure and send_pages: data follows the request only on the own-address ack; each SendData term is Offset(trunc16(i*16)) + Data(chunk) with (i, chunk) from the same item.chunks(16).enumerate(), items taken from the caller's iterator; the counter variable is 0 after the ack, +1 per accepted chunk, and is what DataChunksSent announces; the result query follows; configure sends once(self.sign_type.to_bytes()), send_pages maps pages to as_bytes.",
          TB + "std contracts of chunks/enumerate/Clone of the item iterator. Exact within the property's 16-bit bound.", "DESIGN.md 4 C09"),
